@@ -396,6 +396,7 @@ class Interp:
 
     # ------------------------------------------------------------------ calls
     def call(self, st, bb, term):
+        self._st = st    # current abstract state, for oracles that need to look at other locals
         argvals = [self.operand(st, bb, a) for a in term["args"]]
         r = self.oracle.call(self, bb, term, argvals)
         if r is None:
@@ -491,7 +492,20 @@ class Interp:
                         work.append(s)
         res = Result(body, in_states, exec_edges, exec_blocks, call_args, switch_vals, self.F.adts)
         res._out = out_states
+        res.interp = self
         return res
+
+    def state_at(self, res, bb, idx):
+        """abstract state just before statement idx of block bb (replay from the block's in-state)"""
+        if bb not in res.in_states:
+            return None
+        st = dict(res.in_states[bb])
+        for s in self.body.blocks[bb].stmts[:idx]:
+            if s["k"] == "assign":
+                self.write_place(st, s["place"], self.rvalue(st, bb, s, s["place"]))
+            elif s["k"] == "setdiscr":
+                self.write_place(st, s["place"], TOP)
+        return st
 
     def _refine(self, st, term, succ):
         """on an unknown switch over a plain local, record the value implied by the edge taken"""
